@@ -130,6 +130,29 @@ def run(check):
                     rec['cpp'], rec['native_output'] = cpp, r.stdout
                     if 'MISMATCH' in r.stdout:
                         rec['confirmed'], rec['mismatch'] = True, r.stdout.strip().split('\n')
+            ms = re.match(r'C02\.static\.(\w+)\.(\w+)\.(\w+)\.(\w+)$', ob.name)
+            if ms:
+                shape, utn, ea, eb = ms.groups()
+                ctor = {'scalar': '1.5', 'array2': 'std::array<double, 2>{1.5, -2.5}', 'array3': 'std::array<double, 3>{1.5, -2.5, 3.5}',
+                        'array6': 'std::array<double, 6>{1.5, -2.5, 3.5, 4.5, -5.5, 6.5}', 'array9': 'std::array<double, 9>{1.5, -2.5, 3.5, 4.5, -5.5, 6.5, 7.5, -8.5, 9.5}',
+                        'PlanarVector': 'PhQ::PlanarVector<double>(1.5, -2.5)', 'Vector': 'PhQ::Vector<double>(1.5, -2.5, 3.5)',
+                        'SymmetricDyad': 'PhQ::SymmetricDyad<double>(1.5, -2.5, 3.5, 4.5, -5.5, 6.5)', 'Dyad': 'PhQ::Dyad<double>(1.5, -2.5, 3.5, 4.5, -5.5, 6.5, 7.5, -8.5, 9.5)'}.get(shape)
+                if ctor and getattr(check, 'static_replays', 0) < 12:
+                    check.static_replays = getattr(check, 'static_replays', 0) + 1
+                    A_, B_ = 'PhQ::Unit::%s::%s' % (utn, ea), 'PhQ::Unit::%s::%s' % (utn, eb)
+                    cpp = ('#include <PhQ/Unit/%s.hpp>\n#include <PhQ/Unit.hpp>\n#include <cstdio>\n#include <cstring>\n#include <array>\nint main() {\n  const auto v = %s;\n'
+                           '  const auto s = PhQ::ConvertStatically<PhQ::Unit::%s, %s, %s>(v);\n  const auto r = PhQ::Convert(v, %s, %s);\n'
+                           '  if (std::memcmp(&s, &r, sizeof s) != 0) { const double* ps = reinterpret_cast<const double*>(&s); const double* pr = reinterpret_cast<const double*>(&r);\n'
+                           '    for (unsigned i = 0; i < sizeof s / sizeof(double); ++i) if (ps[i] != pr[i]) std::printf("MISMATCH component %%u: compile-time form %%.17g, run-time form %%.17g\\n", i, ps[i], pr[i]);\n    return 1; }\n  return 0;\n}\n') % (
+                               utn, ctor, utn, A_, B_, A_, B_)
+                    r, err = replay.build_and_run(cpp, os.path.join(check.work, 'replay'), 'r_' + re.sub(r'\W+', '_', ob.name))
+                    if err:
+                        rec['replay_error'] = err[:500]
+                    else:
+                        rec['cpp'], rec['native_output'] = cpp, r.stdout
+                        if 'MISMATCH' in r.stdout:
+                            rec['confirmed'], rec['mismatch'] = True, r.stdout.strip().split('\n')[:6]
+                            rec['inputs'] = {'original': ea, 'new': eb}
             check.violations.append((ob, write_replay(check, ob, rec), '' if rec['confirmed'] else 'no-failing-input-found'))
 
 
